@@ -12,8 +12,8 @@ Everything is stated for all inputs (all `Int` nanosecond counts, all zone datab
 * arithmetic: `(t + d) - d = t`, `(t1 - t2) + t2 = t1`, `d1 + d2 - d2 = d1` whenever the intermediate result is
   representable; a result outside chrono's range is an error (and the error is passed on); order is the
   order of the nanosecond counts.
-* calendar: `civilOfDays` produces a valid Gregorian date (`civil_valid`), `daysOfCivil` undoes it
-  (`civil_roundtrip`), the day of the year counts from January 1 (`doy_eq`), the day of the week advances by
+* calendar: `daysOfCivil` numbers the valid Gregorian dates consecutively from 1970-01-01 (`daysOfCivil_next`,
+  `daysOfCivil_epoch`), `civilOfDays` produces a valid date (`civil_valid`) whose number is the day (`civil_roundtrip`), the day of the year counts from January 1 (`doy_eq`), the day of the week advances by
   one per day from Thursday 1970-01-01; the accessor fields have the documented bases and determine the
   local second count (`fields_determine_instant`).
 * zones: the zone-less call equals the call with a zone of offset 0 for nine of the ten accessors
@@ -129,6 +129,26 @@ theorem ts_order_chrono (a b : Int) :
 theorem civil_roundtrip (z : Int) :
     daysOfCivil (civilOfDays z).year (civilOfDays z).month (civilOfDays z).day = z :=
   parts_roundtrip _ _ _ _ _ (parts_ok z)
+
+/-- **`daysOfCivil` counts days** (the specification side is the Gregorian calendar): the date after a valid
+    date — next day of the month, first of the next month, or January 1 of the next year — has the next
+    number, and 1970-01-01 has number 0. -/
+theorem daysOfCivil_next (y m d : Int) (hm : 1 ≤ m ∧ m ≤ 12) (hd : 1 ≤ d ∧ d ≤ monthLen y m) :
+    (d < monthLen y m → daysOfCivil y m (d + 1) = daysOfCivil y m d + 1) ∧
+    (d = monthLen y m → m < 12 → daysOfCivil y (m + 1) 1 = daysOfCivil y m d + 1) ∧
+    (d = monthLen y m → m = 12 → daysOfCivil (y + 1) 1 1 = daysOfCivil y m d + 1) := by
+  refine ⟨fun _ => ?_, fun hd' hm' => ?_, fun hd' hm' => ?_⟩
+  · simp only [daysOfCivil]; omega
+  · subst hd'
+    have hs := year_step (y - 1)
+    simp only [Int.sub_add_cancel] at hs
+    have hm12 : m = 1 ∨ m = 2 ∨ m = 3 ∨ m = 4 ∨ m = 5 ∨ m = 6 ∨ m = 7 ∨ m = 8 ∨ m = 9 ∨ m = 10 ∨ m = 11 := by omega
+    rcases hm12 with h | h | h | h | h | h | h | h | h | h | h <;> subst h <;>
+      simp only [daysOfCivil, monthLen] <;> (try split at hs) <;> simp_all <;> omega
+  · subst hd'; subst hm'
+    simp only [daysOfCivil, monthLen]
+    simp; omega
+theorem daysOfCivil_epoch : daysOfCivil 1970 1 1 = 0 := by decide
 
 /-- `civilOfDays` is injective: different days have different dates. -/
 theorem civil_injective (z z' : Int) (h : civilOfDays z = civilOfDays z') : z = z' := by
@@ -433,6 +453,10 @@ example : inTs 0 = true ∧ inTs (0 + 1000000000) = true := by decide
 example : inTs tsMax = true ∧ inTs (tsMax + 1) = false := by decide
 example : arith .add (.ts tsMax) (.dur 1) = .err .value := by rfl
 example : inDur 5 = true ∧ inDur (5 + 7) = true := by decide
+example : inTs (0 - 5) = true ∧ inTs (tsMin - 1) = false ∧ inDur (durMax + 1) = false ∧ inDur (-durMax - 1) = false := by decide
+example : monthLen 2024 2 = 29 ∧ monthLen 1900 2 = 28 ∧ monthLen 2000 2 = 29 ∧ monthLen 2023 4 = 30 := by decide
+example : (1 : Int) ≤ 2 ∧ (2 : Int) ≤ 12 ∧ (1 : Int) ≤ 29 ∧ (29 : Int) ≤ monthLen 2024 2 := by decide
+example : daysOfCivil 2024 3 1 = daysOfCivil 2024 2 29 + 1 ∧ daysOfCivil 2025 1 1 = daysOfCivil 2024 12 31 + 1 := by decide
 example : civilOfDays 0 = { year := 1970, month := 1, day := 1, doy := 0 } := by decide
 example : civilOfDays 11016 = { year := 2000, month := 2, day := 29, doy := 59 } := by decide
 example : civilOfDays (-1) = { year := 1969, month := 12, day := 31, doy := 364 } := by decide
